@@ -287,7 +287,8 @@ func (g *Gen) quoPair() (x, y d128.Decimal) {
 
 func genC02(g *Gen) {
 	g.setMode(0)
-	g.mulGrid(0.4)
+	g.mulGrid(0.34)
+	g.mulWideSubnormalGrid(0.2)
 	g.quoGrid(0.12)
 	g.pairGrid(0.2, func(x, y d128.Decimal) { g.someModes([]string{"Mul", "Quo"}[g.r.Intn(2)], x, y, 2) })
 	for !g.w.full() {
